@@ -41,7 +41,7 @@ def gen_lineage(r):
         s0, g0 = spec.kind_matrix_root(r, ignore=None if ig0 == 'none' else ig0, nullable_x=nullable_x)
     else:
         s0, g0 = spec.gen_root(r, True, hook_p=0.0, ignore=ig0, class_start=False, max_rep_lo=1,
-                               start_spelling=r.choice(['start'] * 8 + ['Start', 'START']))
+                               start_spelling=r.choice(['start'] * 8 + ['Start', 'START']), helpers_p=0.3)
     infos = [C.ModInfo(0, nm(0), None, s0, g0)]
     n_levels = r.choice([2, 2, 3, 3, 3])
     prev = infos[0]
@@ -62,7 +62,7 @@ def gen_lineage(r):
             # the derived grammar overrides the two-parameter rule, possibly listing the parameters in another order
             fi = (r.choice(spec.CN_OVERRIDES),)
         s, g = spec.gen_child(r, prev.gen, hook_p=0.0, ignore=ig, force=force, override_ignore_p=0.25,
-                              respell_start_p=0.3, force_body=fb, force_items=fi)
+                              respell_start_p=0.3, force_body=fb, force_items=fi, helpers_p=0.2, echo_lit_call_p=0.5)
         m = C.ModInfo(i, nm(i), prev.id, s, g, parent=prev)
         infos.append(m)
         prev = m
@@ -80,7 +80,7 @@ def gen_lineage(r):
                 force = ('X',) if matrix and r2.random() < 0.5 else ()
                 fb = {'X': r2.choice(spec.FAILING_X_OVERRIDES)} if (nullable_x and force) else None
                 s, g = spec.gen_child(r2, par.gen, hook_p=0.0, ignore=r2.choice([None, None, 'anon', 'named']), force=force,
-                                      override_ignore_p=0.25, respell_start_p=0.2, force_body=fb)
+                                      override_ignore_p=0.25, respell_start_p=0.2, force_body=fb, helpers_p=0.2, echo_lit_call_p=0.5)
                 sibs.append(C.ModInfo(5 + k, nm(5 + k), par.id, s, g, parent=par))
     return infos, alt, dotted, sibs
 
